@@ -147,6 +147,7 @@ func cmdCheck(args []string) {
 	s.TimeoutS = 20
 	if tier == "thorough" {
 		s.TimeoutS = 60
+		vc.CrossCheck = true
 	}
 	if *timeout > 0 {
 		s.TimeoutS = *timeout
